@@ -298,10 +298,12 @@ def run(ctx: Ctx) -> None:
 
     configs: list[tuple[dict, int, list[int], bool]] = []
     for m in (1, 2, 3):
-        configs.append(({"kind": "lru", "max": m, "lsize": 0, "aw": 1, "dw": 1, "keys": keys3}, depth, [1], False))
+        # thorough: depth 6 (117 649 sequences) for max_size 2, depth 5 for the others (memory: every history is kept)
+        configs.append(({"kind": "lru", "max": m, "lsize": 0, "aw": 1, "dw": 1, "keys": keys3},
+                        depth if (quick or m == 2) else depth - 1, [1], False))
     for m in (1, 2, 3):
         configs.append(({"kind": "hybrid", "max": m, "lsize": 0, "aw": 1, "dw": 1, "keys": keys3},
-                        depth - 1 if quick else depth - 1, [1, 2] if quick else [0, 1, 3], False))
+                        depth - 1 if quick else 4, [1, 2] if quick else [0, 1, 3], False))
     if not quick:
         configs.append(({"kind": "hybrid", "max": 2, "lsize": 0, "aw": 1, "dw": 3, "keys": keys3}, depth - 1, [1, 2], False))
     configs.append(({"kind": "simple", "max": 1, "lsize": 0, "aw": 1, "dw": 1, "keys": keys3}, depth, [1], False))
